@@ -48,8 +48,39 @@ impl Q<'_> {
 
 pub type QRes = Option<Vec<(u32, f32)>>;
 
+thread_local! {
+    /// One query buffer per worker thread, refilled in place: about three queries out of four hand arroy the same
+    /// address with other contents (callers reuse buffers; an answer is a function of the contents).
+    static QUERY_BUF: std::cell::RefCell<(Vec<f32>, u64)> = std::cell::RefCell::new((Vec::with_capacity(4096), 0));
+}
+
 /// Runs a query; Err = arroy returned an error or panicked.
 pub fn run_query<D: Distance>(reader: &Reader<D>, rtxn: &RoTxn, q: &Q) -> Result<QRes, String> {
+    if let By::Vector(v) = &q.by {
+        let shared = QUERY_BUF.with(|b| {
+            let mut b = b.borrow_mut();
+            // about three queries out of four, in an irregular pattern (a fixed period resonates with the callers'
+            // loops: with "every third one unshared" each change of contents happened to follow an unshared query)
+            b.1 = b.1.wrapping_mul(6364136223846793005).wrapping_add(1442695040888963407);
+            if (b.1 >> 33) % 4 != 0 && v.len() <= b.0.capacity() {
+                b.0.clear();
+                b.0.extend_from_slice(v);
+                true
+            } else {
+                false
+            }
+        });
+        if shared {
+            return QUERY_BUF.with(|b| {
+                let b = b.borrow();
+                run_query_inner(reader, rtxn, &Q { by: By::Vector(&b.0), ..q.clone() })
+            });
+        }
+    }
+    run_query_inner(reader, rtxn, q)
+}
+
+fn run_query_inner<D: Distance>(reader: &Reader<D>, rtxn: &RoTxn, q: &Q) -> Result<QRes, String> {
     let r = catch(|| {
         let mut qb = reader.nns(q.count);
         if let Some(k) = q.search_k {
@@ -380,6 +411,67 @@ pub fn check_lattice<D: Distance>(
                 if results.iter().any(|r| !same_results(r, &ex)) {
                     st.flag("budget_truncated");
                 }
+            }
+        }
+        // (f) a query builder is a value: what it answers depends on its current settings, not on the queries it
+        // answered before. One builder answers three queries, its settings changed in between; each answer must be
+        // the one a fresh builder with the same (cumulative) settings gives.
+        {
+            let count = [1usize, 3, n, usize::MAX][mix.below(4) as usize];
+            let mut eff: (Option<usize>, Option<usize>, Option<&RoaringBitmap>) = (None, None, None);
+            let mut settings = Vec::new();
+            for _ in 0..3 {
+                let k = ks[mix.below(ks.len() as u64) as usize];
+                let o = overs[mix.below(3) as usize];
+                let c = cands[mix.below(cands.len() as u64) as usize];
+                eff = (k.or(eff.0), o.or(eff.1), c.or(eff.2));
+                settings.push(((k, o, c), eff));
+            }
+            let reused: Result<Vec<QRes>, String> = match catch(|| {
+                let mut qb = reader.nns(count);
+                let mut out = Vec::new();
+                for ((k, o, c), _) in &settings {
+                    if let Some(k) = k {
+                        qb.search_k(NonZeroUsize::new(*k).unwrap());
+                    }
+                    if let Some(o) = o {
+                        qb.oversampling(NonZeroUsize::new(*o).unwrap());
+                    }
+                    if let Some(c) = c {
+                        qb.candidates(c);
+                    }
+                    out.push(match by {
+                        By::Vector(v) => qb.by_vector(rtxn, v).map(Some),
+                        By::Item(i) => qb.by_item(rtxn, *i),
+                    }?);
+                }
+                Ok::<_, arroy::Error>(out)
+            }) {
+                Ok(Ok(v)) => Ok(v),
+                Ok(Err(e)) => Err(format!("error {e:?}")),
+                Err(p) => Err(format!("panic: {} at {}", p.message, p.location)),
+            };
+            let reused = match reused {
+                Ok(r) => r,
+                Err(e) => return violation("lattice:error", format!("one builder nns({count}) answering three queries: {e}")),
+            };
+            for (i, (_, (k, o, c))) in settings.iter().enumerate() {
+                let q = Q { count, search_k: *k, oversampling: *o, candidates: *c, by: by.clone() };
+                let fresh = exec(&q, st)?;
+                let same = reused[i].as_ref().is_some_and(|r| same_results(r, &fresh));
+                if !same {
+                    return violation(
+                        "lattice:builder-reuse",
+                        format!(
+                            "query {} of 3 on one reused builder, settings then {}: {:?}, a fresh builder with the same settings answers {:?}",
+                            i + 1,
+                            q.render(),
+                            reused[i].as_ref().map(|r| r.iter().take(5).collect::<Vec<_>>()),
+                            fresh.iter().take(5).collect::<Vec<_>>()
+                        ),
+                    );
+                }
+                st.bump("builder_reuse_checked");
             }
         }
         // (e) defaults: budget unset == explicit count * n_trees; oversampling unset == explicit default
